@@ -4,7 +4,7 @@ C10 - sync is idempotent, never edits the truth, and reports changes truthfully.
 E2: explicit-state exploration of the *byte-level* project graph on the real implementation.
 State   = the bytes of the three project files (or MISSING)
 Events  = sync(truth kind, target set) for all 9 combinations, edit_truth(kind, version) for 6
-Start   = every combination of {missing, empty, no definition, version 1, version 2} per file (125 states)
+Start   = every combination of {missing, empty, no definition, version 1, version 2, helper function + version 1} per file (216 states)
 Search  = breadth-first from each start state to closure (bounded by a depth cap that is reported when hit)
 Oracles = on every accepted sync transition: running the identical sync again is a self-loop on bytes; the truth file's
           bytes are unchanged; the returned report and the printed modified/unchanged lines are true exactly for the
@@ -20,7 +20,7 @@ from mc import core
 from mc import project as pj
 from mc.core import site
 
-VALS = ("missing", "empty", "nodef", "v1", "v2")
+VALS = ("missing", "empty", "nodef", "v1", "v2", "helper+v1")
 SYNCS = [(t, tuple(k for k in pj.KINDS if k in S)) for t in pj.KINDS
          for S in ([t, o] for o in pj.KINDS if o != t)] + [(t, tuple(pj.KINDS)) for t in pj.KINDS]
 EDITS = [(k, v) for k in pj.KINDS for v in ("v1", "v2")]
@@ -60,15 +60,15 @@ def printed_report(out):
 class C10(core.Check):
     id = "C10"
     level = "model_checking"
-    rule = ("explicit-state BFS over the byte-level project graph: from each of the 125 concrete start states every sync / "
+    rule = ("explicit-state BFS over the byte-level project graph: from each of the 216 concrete start states every sync / "
             "edit event is applied with the real ground_truth; states are file-byte snapshots (exact, no abstraction); on "
             "every sync transition the same sync is executed a second time and must be a self-loop, the truth file must be "
             "byte-identical, and the returned and printed reports must match the byte changes")
-    assumptions = ("closure is sought up to the depth cap (quick 3, thorough 4); the number of frontier states left at the cap "
+    assumptions = ("closure is sought up to the depth cap (quick 2, thorough 4); the number of frontier states left at the cap "
                    "is reported", "edit events write the hand-written canonical text of the version")
 
     def depth_cap(self):
-        return 4 if self.tier == "thorough" else 3
+        return 4 if self.tier == "thorough" else 2
 
     def space(self):
         return _Space()
